@@ -87,6 +87,18 @@ def compare(t, h, res):
 
 
 def judge_hist(s, ev, res):
+    # the handle and a view that exist BEFORE the event have both been read in full (so whatever they cache is filled)
+    old_view = None
+    try:
+        xt.read(s.t, s.h)
+        hand.snap(s.t, s.h)
+        if s.t[0] != "U":
+            old_view = hist.view_of(s)
+            xt.read(s.t, old_view)
+            hand.snap(s.t, old_view)
+    except Exception as e:
+        res.skipped["pre-read(C01's business):" + common.exc_failure(e)] += 1
+        return [], False
     try:
         with common.Watchdog(30):
             hist.apply_event(s, ev)
@@ -102,6 +114,16 @@ def judge_hist(s, ev, res):
         res.skipped["post-read(C10's business):" + common.exc_failure(e)] += 1
         return [], False
     r = compare(s.t, s.h, res)
+    if r is None and old_view is not None:
+        # the view created before the event must show the same value and structure as the handle
+        try:
+            gv = xt.read(s.t, old_view)
+            if not xt.veq(gv, s.mv):
+                r = ("C06.value", "older-view-stale", "a view created before the write reads: first difference at %r: %s" % xt.vdiff(gv, s.mv))
+            elif hand.snap(s.t, old_view) != hand.snap(s.t, s.h):
+                r = ("C06.structure", "older-view-structure-stale", "")
+        except Exception as e:
+            r = ("C06.view", "older-view-read-raises:" + common.exc_failure(e), repr(e))
     if r:
         res.outcomes[r[1].split(":")[0]] += 1
         return [common.violation(r[0], r[1], {}, {}, r[2])], False
